@@ -84,6 +84,10 @@ pub struct Data {
     pub mutations: u64,
     pub fault: Option<Fault>,
     pub fired: bool,
+    /// `(name, n)`: the n-th (1-based) `id_for(name)` fails once with `KeyNotFound` (logged with
+    /// `applied == false`).
+    pub id_fault: Option<(String, u32)>,
+    pub id_lookups: BTreeMap<String, u32>,
 }
 
 impl Data {
@@ -197,6 +201,21 @@ impl NodePersistence for RecStore {
     fn id_for(&self, name: &str) -> Result<Self::LaneId, StoreError> {
         let seq = self.tick();
         let mut g = self.data.lock();
+        let count = {
+            let c = g.id_lookups.entry(name.to_string()).or_insert(0);
+            *c += 1;
+            *c
+        };
+        if matches!(&g.id_fault, Some((n, k)) if n == name && *k == count) {
+            g.id_fault = None;
+            g.log.push(Entry {
+                seq,
+                inc: self.inc,
+                call: Call::IdFor(name.to_string()),
+                applied: false,
+            });
+            return Err(StoreError::KeyNotFound);
+        }
         let next = g.ids.len() as u64;
         let id = *g.ids.entry(name.to_string()).or_insert(next);
         g.log.push(Entry {
